@@ -9,6 +9,7 @@ pub mod c06;
 pub mod c07;
 pub mod c09;
 pub mod c10;
+pub mod c11;
 pub mod lines;
 
 use engine::{Ctx, Tier, Verdict, Worker};
@@ -24,6 +25,7 @@ pub fn run_property(id: &str, ctx: &Ctx) -> bool {
         "C07" => c07::run(ctx),
         "C09" => c09::run(ctx),
         "C10" => c10::run(ctx),
+        "C11" => c11::run(ctx),
         _ => return false,
     }
     true
@@ -38,6 +40,7 @@ pub fn replay_property(id: &str, w: &mut Worker, sub: &str, case: &serde_json::V
         "C07" => c07::replay(w, sub, case),
         "C09" => c09::replay(w, sub, case),
         "C10" => c10::replay(w, sub, case),
+        "C11" => c11::replay(w, sub, case),
         _ => None,
     }
 }
